@@ -379,6 +379,7 @@ type reader struct {
 	ratioRx    *regexp.Regexp
 	floatType  Symbol
 	one        bool
+	closed     bool // the byte just handled closed a string or a |symbol|
 	more       bool // more to read
 }
 
@@ -636,6 +637,7 @@ func (r *reader) read(src []byte) {
 			}
 			r.push(obj)
 			r.mode = valueMode
+			r.closed = true
 		case pipeDone:
 			var obj Object
 			// Symbol names are case insensitive, the name is kept in
@@ -647,6 +649,7 @@ func (r *reader) read(src []byte) {
 			}
 			r.push(obj)
 			r.mode = valueMode
+			r.closed = true
 
 		case escByte:
 			if len(r.buf) == 0 && r.tokenStart < r.pos {
@@ -785,11 +788,14 @@ func (r *reader) read(src []byte) {
 			}
 		}
 		if r.one && 0 < len(r.code) {
-			if b == ')' {
+			// A closing parenthesis, double quote or bar is part of the
+			// object just read, a delimiter after a token is not.
+			if b == ')' || r.closed {
 				r.pos++
 			}
 			return
 		}
+		r.closed = false
 	}
 	r.pos++
 	if r.more {
@@ -805,7 +811,7 @@ func (r *reader) read(src []byte) {
 		case escMode:
 			r.raise("escaped character not terminated")
 		case symbolMode:
-			r.raise("|symbol| not terminated")
+			r.partial("|symbol| not terminated")
 		case charMode:
 			r.pushChar(src)
 		case intMode:
